@@ -23,8 +23,8 @@ import (
 // negation, branches and phis, and gives up (undecided) on anything else the verdict depends on.
 
 func init() {
-	register(&Rule{ID: "RX-3", Min: 3, Run: runRX3,
-		Doc: "the pattern of a regex type /P/ ends at the first unescaped slash: the loop of regex.(*Schema).doCompile over the bytes after the opening slash, read as a function of (its boolean loop-carried state, the current byte) and evaluated for every state and all 256 byte values on the SSA form, is the two-state automaton \"a backslash flips the escape state, any other byte clears it, a slash in the clear state ends the pattern\" started in the clear state, and the pattern taken is the text between the opening slash and that slash"})
+	register(&Rule{ID: "RX-3", Min: 4, Run: runRX3,
+		Doc: "the pattern of a regex type /P/ ends at the first unescaped slash: the loop of regex.(*Schema).doCompile over the bytes after the opening slash, read as a function of (its boolean loop-carried state, the current byte) and evaluated for every state and all 256 byte values on the SSA form, is the two-state automaton \"a backslash flips the escape state, any other byte clears it, a slash in the clear state ends the pattern\" started in the clear state, the text scanned is the file's Content() itself (so that Len, the pattern length + 2, is counted from the first byte of the file), and the pattern taken is the text between the opening slash and that slash"})
 }
 
 type rx3Result struct {
@@ -351,6 +351,24 @@ func runRX3(c *load.Ctx, r *report.RuleResult) {
 				if sl, isSl := elem.X.(*ssa.Slice); isSl && isConst(sl.Low, "1") && sl.High == nil && stored.X == sl.X && isConst(stored.Low, "1") && plusOne(stored.High, elem.Index) {
 					ok, why = true, "content[1:i+1] with i counting from the byte after the opening slash and that byte the closing slash"
 				}
+			}
+		}
+		// the text scanned is the file's content itself (Len is counted from its first byte)
+		if elem != nil {
+			base := elem.X
+			if sl, isSl := base.(*ssa.Slice); isSl {
+				base = sl.X
+			}
+			isContent := false
+			if call, isCall := base.(*ssa.Call); isCall {
+				if sc := call.Call.StaticCallee(); sc != nil && sc.Name() == "Content" && load.FuncPkgRel(sc) == "fs" {
+					isContent = true
+				}
+			}
+			if isContent {
+				r.OK("terminator|text", c.Pos(elem.Pos()), "the loop reads the file's Content() itself")
+			} else {
+				r.Bad("terminator|text", c.Pos(elem.Pos()), "the loop does not read the file's Content() itself but "+describeValue(base)+": the pattern's place in the file is shifted, while Len() (pattern length + 2) is counted from the first byte of the file")
 			}
 		}
 		if ok {
